@@ -55,8 +55,15 @@ def gen_points(rng, g, n):
     return pts
 
 
-def build(rng, e, with_jobs=False):
+def build(rng, e, with_jobs=False, special=None):
     g = gen_cfg(rng, prefer_ramp=(e.s == 1 and e.t == 0))     # integer-dtype containers go with this embedding: fractional ramp weights matter there
+    if special == "bigdgm-iso":
+        while not (g["kern"] == "gdiag" and g["ka"] == g["kb"]):
+            g = gen_cfg(rng)
+    if special == "finemesh":
+        # a fine mesh under a correlated kernel: 35 x 35 = 1225 pixel corners go through the bivariate CDF in one call
+        g = dict(b0=0, p0=0, ps=1, rx=34, ry=34, kern="gcorr", ka=4, kb=4, rho=rng.choice([0.3, -0.5, 0.8, -0.85]), absdecide=0, form="matrix",
+                 wkind=rng.choice(["pers", "const"]), wn=1, ramp=RAMPS[0], marg=0)
     if not e.exact:
         # decimal scale: the requested ranges must be whole numbers of pixels IN FLOATS as well (quotient at most the intended count: a quotient
         # like 3.0000000000000004 legitimately gets a fourth pixel -- C12 -- and the grid would not be the one this check assumes)
@@ -72,6 +79,8 @@ def build(rng, e, with_jobs=False):
         else:
             e = EXACT_EMBS[0]
     X, Y, Z = gen_points(rng, g, rng.randint(1, 4)), gen_points(rng, g, rng.randint(1, 4)), gen_points(rng, g, rng.randint(1, 3))
+    if special in ("bigdgm", "bigdgm-iso"):
+        X = gen_points(rng, g, rng.randint(33, 40))          # a diagram of several dozen pairs (real diagrams have hundreds)
     if rng.random() < 0.4:
         Y.append(list(X[0]))          # a point shared by X and Y: the union has a repeated pair
     U = X + Y
@@ -143,6 +152,7 @@ def run(ctx, mine, n, njobs_cases):
     # binary (4.2 / 1.4 = 2.9999999999999996): the pixel grid must still be the one the public attributes describe
     embs = [EXACT_EMBS[0], EXACT_EMBS[0], EXACT_EMBS[2], EXACT_EMBS[3], EXACT_EMBS[4], EXACT_EMBS[5], DEC7, DEC35]
     items = [build(rng, embs[i % len(embs)], with_jobs=(i < njobs_cases)) for i in range(n)]
+    items += [build(rng, EXACT_EMBS[0], special=sp) for sp in ("bigdgm-iso", "bigdgm", "finemesh", "bigdgm-iso")]
     validate(ctx, items, mine, "V")
 
 
